@@ -1,9 +1,105 @@
-import Rosmar.Step
+/-
+  C17 — the revision sequence number counts the mutations of a key.
+  Property theorems only; helper lemmas live in Rosmar/Proofs.
+-/
+import Rosmar.Proofs.Shape
+import Rosmar.Proofs.Coherence
 namespace Rosmar
 
-/-- placeholder while the framework is brought up: a failed Add leaves the documents alone. -/
-theorem C17_placeholder (k : String) (exp : Nat) (v : String) (j : Bool) (newCas now nid : Nat) :
-    ∃ r, addFn k exp v j newCas now nid [] = .inr r := by
-  simp [addFn, Docs.get?]
+/-- Every row function bumps the revision by one and puts that number in the event it posts. -/
+def RevBump (_k : String) (f : RowFn) : Prop :=
+  ∀ nc now old r' ev o, f nc now old = .inr (some r', ev, o) → r'.rev = revOf old + 1 ∧ ∀ e, ev = some e → e.rev = r'.rev
+
+theorem revBump_family : Family RevBump where
+  add k exp v j := fun nc now old r' ev o h => by
+    obtain ⟨h1, _, h3⟩ := addRow_faithful k exp v j nc now old r' ev o h
+    exact ⟨h1, fun e he => by rw [h3 e he]; rfl⟩
+  set k exp pe v j := fun nc now old r' ev o h => by
+    obtain ⟨h1, _, h3⟩ := setRow_faithful k exp pe v j nc now old r' ev o h
+    exact ⟨h1, fun e he => by rw [h3 e he]; rfl⟩
+  incr k amt d exp := fun nc now old r' ev o h => by
+    obtain ⟨h1, _, h3⟩ := incrRow_faithful k amt d exp nc now old r' ev o h
+    exact ⟨h1, fun e he => by rw [h3 e he]; rfl⟩
+  wcas k exp cas v o := fun nc now old r' ev out h => by
+    obtain ⟨h1, _, h3⟩ := wcasRow_faithful k exp cas v o nc now old r' ev out h
+    exact ⟨h1, fun e he => by rw [h3 e he]; rfl⟩
+  remove k ifCas := fun nc now old r' ev o h => by
+    obtain ⟨h1, _, h3⟩ := removeRow_faithful k ifCas nc now old r' ev o h
+    exact ⟨h1, fun e he => by rw [h3 e he]; rfl⟩
+  touch k exp := fun nc now old r' ev o h => by
+    obtain ⟨r, rfl, h1, _, _, _, _, h7, _⟩ := touchRow_spec exp nc now old r' ev o h
+    exact ⟨h1, fun e he => by rw [h7] at he; cases he⟩
+  wwx k val edits ifCas exp o m := fun nc now old r' ev out h => by
+    obtain ⟨h1, _, h3⟩ := wwxRow_faithful k val edits ifCas exp o m nc now old r' ev out h
+    exact ⟨h1, fun e he => by rw [h3 e he]; rfl⟩
+  delx k names := fun nc now old r' ev o h => by
+    obtain ⟨h1, _, h3⟩ := delxRow_faithful k names nc now old r' ev o h
+    exact ⟨h1, fun e he => by rw [h3 e he]; rfl⟩
+  dsp k names := fun nc now old r' ev o h => by
+    obtain ⟨h1, _, h3⟩ := dspRow_faithful k names nc now old r' ev o h
+    exact ⟨h1, fun e he => by rw [h3 e he]; rfl⟩
+
+/-- **C17 (every single-row entry point, every state).** A call either leaves every row exactly as it was
+    (it failed, was refused, or was cancelled), or it raises the addressed key's revision number by exactly one —
+    starting from 1 for a key that has no row (never written, or purged) — and changes no other key. Touches,
+    xattr-only writes, deletions and resurrections are all among the entry points covered. -/
+theorem C17_plus_one_per_mutation (s : State) (op : Op) (c k : String) (f : RowFn) (h : op.shape = some (.row c k f)) :
+    (∀ c' k', (step s op).1.row? c' k' = s.row? c' k') ∨
+    (revOf ((step s op).1.row? c k) = revOf (s.row? c k) + 1 ∧
+      ∀ c' k', (c' ≠ c ∨ k' ≠ k) → (step s op).1.row? c' k' = s.row? c' k') := by
+  obtain ⟨out, _, ho⟩ := step_outcome s op c k f h
+  cases ho with
+  | noColl _ hr _ => exact Or.inl hr
+  | failed _ hr => exact Or.inl hr
+  | unchanged _ _ hr => exact Or.inl hr
+  | wrote r' ev hf hr hother =>
+    right
+    refine ⟨?_, hother⟩
+    rw [hr]
+    exact (shape_family revBump_family op c k f h _ _ _ _ _ _ hf).1
+
+/-- A rejected call (argument checks) changes nothing at all. -/
+theorem C17_rejected_changes_nothing (s : State) (op : Op) (e : Err) (h : op.shape = some (.rejected e)) :
+    (step s op).1 = s := by
+  rw [step_rejected s op e h]
+
+/-- The live event of a mutation carries the revision number the row now has. -/
+theorem C17_live_event_revno (op : Op) (c k : String) (f : RowFn) (h : op.shape = some (.row c k f))
+    (nc now : Nat) (old : Option Row) (r' : Row) (e : Event) (o : Out) (hf : f nc now old = .inr (some r', some e, o)) :
+    e.rev = r'.rev :=
+  (shape_family revBump_family op c k f h nc now old r' (some e) o hf).2 e rfl
+
+/-- WithMeta writes count too. -/
+theorem C17_withMeta (k : String) (oldCas newCas exp : Nat) (xs : Xattrs) (body : Option String) (j d : Bool)
+    (hwf : d = body.isNone) (nc now : Nat) (old : Option Row) (r' : Row) (ev : Option Event) (o : Out)
+    (h : wmetaRow k oldCas newCas exp xs body j d nc now old = .inr (some r', ev, o)) :
+    r'.rev = revOf old + 1 ∧ ∀ e, ev = some e → e.rev = r'.rev := by
+  obtain ⟨h1, _, h3⟩ := wmetaRow_faithful k oldCas newCas exp xs body j d hwf nc now old r' ev o h
+  exact ⟨h1, fun e he => by rw [h3] at he; cases he; rfl⟩
+
+/-- A backfill event reports the stored revision number. -/
+theorem C17_backfill_event_revno (k : String) (r : Row) (keysOnly : Bool) : (backfillEvent k r keysOnly).rev = r.rev := rfl
+
+/-- `$document.revid` and the `revid` inside `$document` are that same number. -/
+theorem C17_virtual_xattrs (r : Row) :
+    Xattrs.get? (requestedXattrs r ["$document.revid"]) "$document.revid" = some ("\"" ++ toString r.rev ++ "\"") ∧
+    Xattrs.get? (requestedXattrs r ["$document"]) "$document" =
+      some ("{\"value_crc32c\":\"" ++ crcString r.value ++ "\",\"revid\":\"" ++ toString r.rev ++ "\"}") := by
+  constructor <;> simp [requestedXattrs, Xattrs.set, Xattrs.get?]
+
+/-- A purge forgets the row, so the next creation starts again from 1. -/
+theorem C17_recreated_after_purge_starts_at_one (op : Op) (c k : String) (f : RowFn) (h : op.shape = some (.row c k f))
+    (nc now : Nat) (r' : Row) (ev : Option Event) (o : Out) (hf : f nc now none = .inr (some r', ev, o)) : r'.rev = 1 := by
+  have := (shape_family revBump_family op c k f h nc now none r' ev o hf).1
+  simpa [revOf] using this
+
+/-- Non-vacuity: a concrete history on which the hypotheses hold and the revision really moves 0 → 1 → 2 → 3. -/
+example :
+    let s1 := (step initState (.add "c0" "k" 0 "{}" true)).1
+    let s2 := (step s1 (.delete "c0" "k")).1
+    let s3 := (step s2 (.touch "c0" "k" 0)).1
+    let s4 := (step s2 (.add "c0" "k" 0 "{}" true)).1
+    revOf (s1.row? "c0" "k") = 1 ∧ revOf (s2.row? "c0" "k") = 2 ∧ revOf (s3.row? "c0" "k") = 2 ∧ revOf (s4.row? "c0" "k") = 3 := by
+  decide
 
 end Rosmar
